@@ -89,3 +89,62 @@ def test_corpus(repo='/repo'):
                 body = bytes(body, 'utf-8').decode('unicode_escape') if '\\' in body else body
             out.append((os.path.basename(path)[:-3] + '::' + name, f"TestModule DEFINITIONS AUTOMATIC TAGS::= BEGIN {body} END"))
     return out
+
+
+def run_text_shapes(chk, gen, runner, shapes, judge, stats, config=None, symbolic=None):
+    """shapes: iterable of (sig_prefix, text, info).  For each: native front end -> IR -> real generator MIR in mirsym ->
+    judge(items, info, chk, pc, syms) -> [(oracle, message)].  Failures are confirmed through the natively compiled
+    compiler (same judge on the syn-equivalent projection of the native text) before they are reported.
+    symbolic: optional (placeholder values -> z3 terms) map applied to integer leaves."""
+    from . import tokproj
+    for sigp, text, info in shapes:
+        ra = runner.compile(text, backend='ir')
+        if not ra.get('ok'):
+            stats['rejected-natively'] = stats.get('rejected-natively', 0) + 1
+            info_rej = getattr(judge, 'on_reject', None)
+            if info_rej:
+                info_rej(chk, sigp, text, info, ra)
+            continue
+        stats['shapes'] = stats.get('shapes', 0) + 1
+        on_leaf = None
+        if symbolic:
+            def on_leaf(path, kind, conc, symbolic=symbolic):
+                if kind[0] == 'int' and conc in symbolic:
+                    s = symbolic[conc]
+                    if s.size() != kind[1]:
+                        raise Unsupported(f"placeholder width {kind} at {path}")
+                    return s
+                return conc
+
+        def run(ex):
+            out = []
+            for m in ra['ir']:
+                v = gen.load_module(ex, m['tlds'], on_leaf)
+                out.append(gen.result_text(ex, gen.generate_module(ex, v, gen.mkrasn(ex, config) if config else None)))
+            return {'mods': out, 'ts': list(ex.ghost.get('to_string_ts', []))}
+        for r in chk.explore(run):
+            if r.kind == 'panic':
+                chk.violation(f"{sigp} panic", f"generator panics ({r.value[0]}): {text}", {'kind': 'text', 'text': text, 'config': config})
+                continue
+            if r.kind != 'ok':
+                continue
+            mods = r.value['mods']
+            nwarn = sum(len(w) for _, _, w in mods)
+            ts_mods = [t for t in r.value['ts'] if t.toks and len(t.toks) > 2]
+            items = []
+            for t in ts_mods:
+                its = tokproj.parse_items(t)
+                if any(it.kind == 'mod' for it in its):
+                    items.extend(its)
+            fails = judge(items, info, chk, r.pc, nwarn)
+            for oracle, msg in fails:
+                out = runner.compile(text, backend='rasn', config=config)
+                if out.get('ok'):
+                    nf = judge(tokproj.project_text(out['generated']), info, None, None, len(out.get('warnings', [])))
+                else:
+                    nf = [('native-error', str(out)[:200])]
+                if any(o == oracle for o, _ in nf) or not out.get('ok'):
+                    chk.violation(f"{sigp} {oracle}", f"{msg}: {text}", {'kind': 'text', 'text': text, 'oracle': oracle, 'config': config})
+                else:
+                    chk.res.inconclusive.append(f"not reproduced natively: {sigp} {oracle}: {msg}")
+            chk.sample({'shape': sigp, 'text': text[:300]})
